@@ -38,5 +38,38 @@ fn main() {
         }
         fs::write(Path::new(&out).join(format!("{era}.rs")), g).unwrap();
     }
+    // the redeemer-coverage functions, text taken verbatim from the phase-1 sources (brace-matched from `fn <name>(`, line comments skipped), only `pub ` put in front:
+    // they are private, so the native checks this copy of their current text on a small exhaustive domain. A name that is no longer there
+    // yields `FOUND = false` and the native says so instead of judging anything.
+    let mut cov = String::new();
+    for (era, file, name, ty, errs) in [
+        ("alonzo", "alonzo.rs", "redeemer_pointers_coincide", "pallas_primitives::alonzo::RedeemerPointer", "AlonzoError"),
+        ("babbage", "babbage.rs", "redeemer_pointers_coincide", "pallas_primitives::alonzo::RedeemerPointer", "PostAlonzoError"),
+        ("conway", "conway.rs", "redeemer_key_coincide", "pallas_primitives::conway::RedeemersKey", "PostAlonzoError"),
+    ] {
+        let path = format!("/repo/pallas-validate/src/phase1/{file}");
+        println!("cargo:rerun-if-changed={path}");
+        let src = fs::read_to_string(&path).unwrap();
+        let text = src.find(&format!("\nfn {name}(")).and_then(|at| {
+            let open = at + src[at..].find(") -> ValidationResult {")? + ") -> ValidationResult ".len();
+            let (mut depth, mut end) = (0i32, None);
+            let mut in_comment = false; let mut prev = ' ';
+            for (i, ch) in src[open..].char_indices() {
+                if in_comment { if ch == '\n' { in_comment = false; } }
+                else if ch == '/' && prev == '/' { in_comment = true; }
+                else if ch == '{' { depth += 1; } else if ch == '}' { depth -= 1; if depth == 0 { end = Some(open + i + 1); break; } }
+                prev = ch;
+            }
+            Some(src[at + 1..end?].to_string())
+        });
+        let ident = ty.rsplit("::").next().unwrap();
+        match text {
+            Some(t) if !t.contains('"') && !t.contains("'{'") && !t.contains("'}'") && !t.contains("/*") => cov.push_str(&format!(
+                "#[allow(unused, dead_code, clippy::all)]\npub mod cov_{era} {{ use {ty}; use pallas_validate::utils::{{ValidationError::*, {errs}::*, ValidationResult}}; pub type Key = {ident}; pub const FOUND: bool = true; pub const NAME: &str = \"{era}::{name}\";\npub {t}\npub fn call(a: &[Key], b: &[Key]) -> ValidationResult {{ {name}(a, b) }} }}\n")),
+            _ => cov.push_str(&format!(
+                "pub mod cov_{era} {{ use pallas_validate::utils::ValidationResult; pub type Key = {ty}; pub const FOUND: bool = false; pub const NAME: &str = \"{era}::{name}\"; pub fn call(_: &[Key], _: &[Key]) -> ValidationResult {{ Ok(()) }} }}\n")),
+        }
+    }
+    fs::write(Path::new(&out).join("coverage.rs"), cov).unwrap();
     fs::write(Path::new(&out).join("run_all.rs"), format!("pub fn run_all() {{\n{calls}}}\n")).unwrap();
 }
